@@ -110,7 +110,8 @@ PROPS['C11'] = dict(
     technique='Verus postconditions that define every limb of the selected column from the inputs only, plus frame clauses over all other limb blocks, on the extracted real text',
     level_text='Unbounded proof for the coefficient-domain column operations: each ensures gives final(res).limb(col, j) for all j < size as a function of the read-only inputs (no old(res) on the right-hand side for out-of-place ops) and frame_ok: every block outside (col, 0..size) is unchanged.',
     level_note='Covers the vec_znx_* reference operations, the transform-domain wrappers of vec_znx_dft.rs (fft64 and ntt120, numeric kernels abstract), the GLWE operation wrappers, and -- core layer, as a dependency-flow proof over assumed HAL flow contracts -- gglwe_product_dft, glwe_keyswitch_internal, glwe_keyswitch and glwe_decrypt: with nothing required of the previous contents of res or of the scratch arena, no limb of the result depends on stale bytes (the accumulator taken from scratch must be cleared before the digit-grouped product: for dsize >= 3 its last limbs are only ever added to); idft/svp/vmp/convolution kernels themselves and the other core operations are not covered by this check.',
-    units=[K('poulpy-cpu-ref', 'verif_kani::c11_cnv', ['c11_cnv_apply_frame__n8_c2_r3'], cls='bounded', timeout=1500, bound='N = 8, destination 2 columns x 3 limbs with fully symbolic previous contents, operands 1 limb (all-zero prepared vectors), selected column symbolic', functions=['fft64 convolution_apply_dft: the selected column does not depend on the previous contents of the destination (tail limbs zero-filled) and the other column is untouched -- two-run comparison, structure-independent complement of the Verus unit cnv_apply_fft64']), K('poulpy-cpu-ref', 'verif_kani::c09_rings', ['c09_col_rotate__n4_p3', 'c09_col_add__n4'], cls='bounded', timeout=900, bound='N = 4, operand 1 limb (2), result 3 limbs, two columns, stale result', functions=['vec_znx_rotate, vec_znx_add_into: every limb of the selected column defined (zero past the operands), other column untouched -- index-level model']), K('poulpy-cpu-ref', 'verif_kani::c09_rings', ['c09_mul_xp_minus_one__n4_a1_r2_p1'], cls='bounded', timeout=900, bound='N = 4, operand 1 limb, result 2 limbs and 2 columns, all values symbolic (|a| < 2^62), stale result', functions=['vec_znx_mul_xp_minus_one (out of place): structure-independent complement of the Verus unit vec_znx_ring']), V('vec_znx_arith'), V('vec_znx_ring'), V('vec_znx_merge'), V('vec_znx_split'), V('vec_znx_big'), V('vec_znx_normalize'), V('vec_znx_dft'), V('vec_znx_dft_ntt120'), V('vmp_fft64'), V('vmp_ntt120'), V('cnv_prepare_fft64'), V('cnv_apply_fft64'), V('glwe_ops'), V('core_keyswitch'), V('core_extprod'), V('core_decrypt'),
+    units=[V('core_matrix', lemmas=['lemma_same_layout']),
+           K('poulpy-cpu-ref', 'verif_kani::c11_cnv', ['c11_cnv_apply_frame__n8_c2_r3'], cls='bounded', timeout=1500, bound='N = 8, destination 2 columns x 3 limbs with fully symbolic previous contents, operands 1 limb (all-zero prepared vectors), selected column symbolic', functions=['fft64 convolution_apply_dft: the selected column does not depend on the previous contents of the destination (tail limbs zero-filled) and the other column is untouched -- two-run comparison, structure-independent complement of the Verus unit cnv_apply_fft64']), K('poulpy-cpu-ref', 'verif_kani::c09_rings', ['c09_col_rotate__n4_p3', 'c09_col_add__n4'], cls='bounded', timeout=900, bound='N = 4, operand 1 limb (2), result 3 limbs, two columns, stale result', functions=['vec_znx_rotate, vec_znx_add_into: every limb of the selected column defined (zero past the operands), other column untouched -- index-level model']), K('poulpy-cpu-ref', 'verif_kani::c09_rings', ['c09_mul_xp_minus_one__n4_a1_r2_p1'], cls='bounded', timeout=900, bound='N = 4, operand 1 limb, result 2 limbs and 2 columns, all values symbolic (|a| < 2^62), stale result', functions=['vec_znx_mul_xp_minus_one (out of place): structure-independent complement of the Verus unit vec_znx_ring']), V('vec_znx_arith'), V('vec_znx_ring'), V('vec_znx_merge'), V('vec_znx_split'), V('vec_znx_big'), V('vec_znx_normalize'), V('vec_znx_dft'), V('vec_znx_dft_ntt120'), V('vmp_fft64'), V('vmp_ntt120'), V('cnv_prepare_fft64'), V('cnv_apply_fft64'), V('glwe_ops'), V('core_keyswitch'), V('core_extprod'), V('core_decrypt'),
            K('poulpy-cpu-ref', 'verif_kani::c11_ak', ['c11_ak_dft_apply__a3_r2_step2_off1', 'c11_ak_dft_apply__a2_r3_step1_off0', 'c11_ak_dft_apply__a3_r3_step2_off0', 'c11_ak_dft_apply__a2_r2_step1_off1'],
              cls='bounded', tier='thorough', timeout=1500, bound='FFT64Ref, N=8, two output columns, (a_size, res_size, step, offset) constant per harness; numeric kernels abstract',
              functions=['VecZnxDftApply::vec_znx_dft_apply (fft64 reference, real shape logic; fft_ref / reim_from_znx_i64_ref / table fills replaced by bit-level mixers)'],
@@ -165,7 +166,7 @@ PROPS['C12'] = dict(
         K('poulpy-cpu-ref', 'hal_defaults::scratch::verif_kani', ['c12_take_slice_aligned_contract', 'c12_take_slice_aligned_panics_iff_too_small',
           'c12_take_slice_default_u8', 'c12_take_slice_default_i64', 'c12_take_slice_default_f64', 'c12_take_slice_default_i128'], cls='complete', timeout=600,
           functions=['hal_defaults::scratch::take_slice_aligned', 'HalScratchDefaults::take_slice_default', 'HalScratchDefaults::scratch_available_default', 'HalScratchDefaults::scratch_from_bytes_default']),
-        V('vec_znx_ring'), V('vec_znx_normalize'), V('hal_glue'), V('hal_delegates'), V('vmp_fft64'), V('vmp_ntt120'), V('glwe_ops'), V('core_keyswitch'), V('core_extprod'), V('core_mul'), V('core_lwe_ksk'), V('core_relin'), V('core_trace'), V('core_lwe_to_glwe'), V('core_packing', lemmas=['lemma_merge_both', 'lemma_merge_lo', 'lemma_merge_hi']), V('bdd_blind_rotation_block', lemmas=['lemma_or_ge', 'lemma_div_lt']), V('ckks_mul_const'), V('hal_scratch_split'), V('core_ggsw_expand'), V('bdd_blind_rotation'), V('core_encrypt_pk'), V('core_lwe_encrypt'), V('bdd_cmux'), V('core_decrypt'),
+        V('vec_znx_ring'), V('vec_znx_normalize'), V('hal_glue'), V('hal_delegates'), V('vmp_fft64'), V('vmp_ntt120'), V('glwe_ops'), V('core_keyswitch'), V('core_extprod'), V('core_mul'), V('core_lwe_ksk'), V('core_relin'), V('core_trace'), V('core_lwe_to_glwe'), V('core_matrix', lemmas=['lemma_same_layout']), V('core_packing', lemmas=['lemma_merge_both', 'lemma_merge_lo', 'lemma_merge_hi']), V('bdd_blind_rotation_block', lemmas=['lemma_or_ge', 'lemma_div_lt']), V('ckks_mul_const'), V('hal_scratch_split'), V('core_ggsw_expand'), V('bdd_blind_rotation'), V('core_encrypt_pk'), V('core_lwe_encrypt'), V('bdd_cmux'), V('core_decrypt'),
         K('poulpy-cpu-ref', 'verif_kani::c12_window', [f'c12_window_{op}__n4' for op in ('normalize_assign', 'rotate_assign', 'automorphism_assign', 'mul_xp_minus_one_assign', 'lsh_assign', 'rsh_assign')],
           cls='bounded', timeout=1200, bound='N=4 (limb byte size 32: not a multiple of the 64-byte alignment), size 2',
           functions=['HAL traits VecZnx{Normalize,Rotate,Automorphism,MulXpMinusOne,Lsh,Rsh}Assign with a scratch of exactly the companion *_tmp_bytes; two runs with different scratch contents']),
@@ -275,7 +276,7 @@ PROPS['C03'] = dict(
     technique='Verus contracts on the real text of mod_exp_u64 / galois_element / galois_element_inv with number-theoretic lemmas (g*g^(M-1) == 1 mod 2^k); dependency-flow and radix-discipline contracts on the real text of the key-switching glue (gglwe_product_dft, glwe_keyswitch_internal, glwe_keyswitch, glwe_automorphism, glwe_automorphism_add) over assumed flow contracts of the transform-domain HAL operations',
     level_text='Unbounded proof: mod_exp_u64(x,e) == x^e mod 2^64 for all x,e; galois_element follows the sign convention and equals 5^|k| mod 2N; galois_element_inv(g)*g == 1 mod 2N for every odd g and every power-of-two order <= 2^33. Key-switching glue, for EVERY digit size, digit count, rank, limb count and input/key/output radix admitted by the API: no panic (every set_size within capacity, no underflow in the digit-group limb counts, every inner scratch assertion holds with exactly the advertised bytes), no stale scratch or result bytes reach the output (the accumulator must be cleared: for dsize >= 3 its last limbs are only added to), and every coefficient-domain vector folded into the key-switch accumulator is expressed in the key radix (the re-normalised copy, not the original operand, in the cross-radix branch).',
     level_note='Ring packing: each pairwise merge (pack_internal of glwe_pack, combine of the on-the-fly packer) produces, for EVERY presence pattern of its two operands, the one documented formula a/2 + (b/2)X^t + phi(a/2 - (b/2)X^t) over abstract plaintext values (module axioms + the level identity phi(xX^t) = -X^t phi(x) as precondition; GLWE operation values trusted). The glue statements are about which inputs reach the output and in which radix, not about values: that the gadget product decrypts to the expected image within the noise bound needs exact DFT products (C07) and is undecided, as are trace / packing / LWE conversion semantics and the sub / sub_negate / assign variants of the automorphism (same structure, not yet extracted).',
-    units=[V('galois', lemmas=['lemma_odd_pow', 'lemma_galois_inverse']), V('core_keyswitch'), V('core_lwe_ksk'), V('core_trace'), V('core_lwe_to_glwe'),
+    units=[V('galois', lemmas=['lemma_odd_pow', 'lemma_galois_inverse']), V('core_keyswitch'), V('core_lwe_ksk'), V('core_trace'), V('core_lwe_to_glwe'), V('core_matrix', lemmas=['lemma_same_layout']),
            V('core_packing', lemmas=['lemma_merge_both', 'lemma_merge_lo', 'lemma_merge_hi', 'lemma_neg_add']), V('core_sample_extract'),
            K('poulpy-cpu-ref', 'verif_kani', ['c03_mask_mod_u64'], cls='complete', timeout=300, functions=['leaf fact x & (m-1) == x mod m (u64)'])],
     trusted_base=VERUS_TRUST + CORE_TRUST + ['assumed specifications of i64::unsigned_abs, i64::signum, u64::is_power_of_two',
